@@ -263,6 +263,8 @@ impl Prop for C07P {
     fn worker(&self, excl: &[String]) -> Box<dyn WorkerState> {
         let mut prof = crate::props::prog::profile_for(crate::props::prog::Kind::C02, excl);
         prof.budget = 160;
+        // the scope edits (a local used outside its block) rely on every `let` name being unique
+        prof.shadowing = false;
         let rt_ctx = host::build_runtime().with_context_type::<SnipCtx>().expect("context type");
         Box::new(W { rt: host::build_runtime(), rt_ctx, prof, excl_assign_const: excl.iter().any(|e| e == "C07-F1") })
     }
